@@ -20,6 +20,7 @@ func main() {
 	tier := flag.String("tier", "quick", "")
 	seed := flag.Int64("seed", 0, "")
 	wall := flag.Float64("wall", 0, "")
+	findings := flag.String("findings", "", "KNOWN_FINDINGS.json")
 	flag.Parse()
 	pdir := filepath.Join(*dir, "evidence", ".parts", *prop)
 	files, _ := filepath.Glob(filepath.Join(pdir, "*.json"))
@@ -133,6 +134,14 @@ func main() {
 	}
 	os.RemoveAll(pdir)
 	fmt.Printf("evidence: %s evaluations=%d distinct_nontrivial=%d violations=%d\n", *prop, evals, exact+distinct, violations)
+	// one KNOWN-FINDING line per listed finding whose cases were met (and excluded) in this run
+	if *findings != "" && len(known) > 0 {
+		for matcher, f := range ev.KnownMatchers(ev.Env{Dir: filepath.Dir(*findings)}, *prop) {
+			if n := known[matcher]; n > 0 {
+				fmt.Printf("KNOWN-FINDING: property=%s %s (%d cases excluded; finding %s)\n", *prop, f.Line, n, f.ID)
+			}
+		}
+	}
 	for _, s := range inconcl {
 		fmt.Println("INCONCLUSIVE:", s)
 	}
